@@ -67,7 +67,7 @@ PROPS["C03"] = {
 
 PROPS["C04"] = {
     "kind": "harness", "test": "TestC04", "level": "fault_enumeration", "journal": True,
-    "tiers": tiers(250, 8, 2500, 16),
+    "tiers": tiers(200, 8, 2500, 16),
     "rule": "rapid-generated histories (3-16 valid statements, flush after most statements) ending in shutdown or process death; EVERY flush in them (timer tick = VerifFlush, the one ending CREATE TABLE, "
             "the one in shutdown, and the one that ends recovery of the crashed image) is recorded through the hooks and its torn states are composed: pre-flush file + subset S of the flushed pages + old header, "
             "all 2^|D| subsets for |D|<=6 else >=64 sampled incl. all singletons and co-singletons; each composed image is recovered with the real InitStorage and compared with the model of all statements acknowledged "
